@@ -278,6 +278,66 @@ func CheckMain(args []string) int {
 		fmt.Printf("ENGINE-ERROR: property %s has no units\n", prop)
 		return 2
 	}
+	// closure: a function under contract that a unit calls (also through a closure) is assumed, at that call, to keep its
+	// postconditions. Those of its clauses that this property can rely on - the untagged helper facts and the ones tagged with this
+	// property - must then be checked by this property's own command, or a change of the callee that breaks the property would
+	// only be noticed by some other property's check. Such callees become units (contract obligations only), transitively.
+	auto := 0
+	for changed := true; changed; {
+		changed = false
+		var cur []*sel
+		for _, u := range units {
+			cur = append(cur, u)
+		}
+		for _, u := range cur {
+			for _, b := range u.fn.Blocks {
+				for _, ins := range b.Instrs {
+					var callee *ssa.Function
+					switch x := ins.(type) {
+					case ssa.CallInstruction:
+						callee = x.Common().StaticCallee()
+					case *ssa.MakeClosure:
+						callee, _ = x.Fn.(*ssa.Function)
+					}
+					if callee == nil {
+						continue
+					}
+					k := FuncKey(callee)
+					if _, have := units[k]; have {
+						continue
+					}
+					if _, inRepo := p.Funcs[k]; !inRepo {
+						continue
+					}
+					fc := p.contractFor(callee)
+					if fc == nil {
+						continue
+					}
+					relevant := false
+					for _, c := range fc.Ensures {
+						tags := clauseTags(c.Text)
+						if len(tags) == 0 {
+							relevant = true
+						}
+						for _, t := range tags {
+							if t == prop {
+								relevant = true
+							}
+						}
+					}
+					if !relevant {
+						continue
+					}
+					units[k] = &sel{fn: p.Funcs[k], rules: []UnitRule{{Prop: prop, Tier: "both", Glob: k, Kinds: map[string]bool{"contract": true}}}}
+					auto++
+					changed = true
+				}
+			}
+		}
+	}
+	if auto > 0 {
+		fmt.Printf("note: %d contracted callees of the listed units were added as units (their helper clauses are part of this property's proof)\n", auto)
+	}
 	outDir := filepath.Join(os.TempDir(), fmt.Sprintf("govc-%s-%d", prop, os.Getpid()))
 	if !*keep {
 		defer os.RemoveAll(outDir)
